@@ -340,6 +340,16 @@ func Run(c *core.Ctx) {
 		var back2 interface{}
 		rt = rt && resprot.UnmarshalDataValue([]byte(" \n\t"+string(data)+" "), &back2) == nil && reflect.DeepEqual(back2, gv)
 		recs = append(recs, rec{"op": "datavalue", "j": j, "roundtrip": rt, "wrapped": strings.HasPrefix(string(data), `{"data":`), "dbg": string(data)})
+		// the same value handed over as JSON text that is already encoded (json.RawMessage): any legal spelling of it
+		raw := json.RawMessage([]string{" ", "", "\n\t "}[(i/3)%3] + text(j, rng) + []string{"", " "}[i%2])
+		data3, err := resprot.MarshalDataValue(raw)
+		if err != nil {
+			recs = append(recs, rec{"op": "datavalue", "j": j, "roundtrip": false, "wrapped": false, "dbg": "marshal error on RawMessage " + err.Error()})
+			continue
+		}
+		var back3 interface{}
+		rt3 := resprot.UnmarshalDataValue(data3, &back3) == nil && reflect.DeepEqual(back3, gv)
+		recs = append(recs, rec{"op": "datavalue", "j": j, "roundtrip": rt3, "wrapped": strings.HasPrefix(strings.TrimSpace(string(data3)), `{"data":`), "dbg": fmt.Sprintf("RawMessage %q -> %s", raw, data3)})
 	}
 	// (5) envelopes of real responses
 	recs = append(recs, envelopes(c, rng)...)
